@@ -191,7 +191,19 @@ func (c *Cmd) Start() error {
 	if c.Stderr != nil {
 		errf = file(c.Stderr)
 	}
-	p, err := k.W.Spawn(c.simName(), c.Path, c.Args, c.Environ(), in, out, errf, c.SimOpts)
+	// as the kernel does it: the child changes to Dir first, a relative command
+	// path is then resolved from there (symbolic links, ".." physically)
+	cwd := c.Dir
+	if cwd == "" {
+		cwd = "/"
+		if cur != nil && cur.Cwd != "" {
+			cwd = cur.Cwd
+		}
+	}
+	p, err := k.W.Spawn(c.simName(), k.W.Phys(cwd, c.Path), c.Args, c.Environ(), in, out, errf, c.SimOpts)
+	if err == nil {
+		p.Cwd = cwd
+	}
 	if err != nil {
 		c.closeChildEnds()
 		c.closeParentEnds()
